@@ -40,7 +40,7 @@ def run_property(prop, tier, seed, jobs=None, only=None, verbose=False):
     def spec_selected(s):
         if prop in s.props:
             return True
-        return any(q in s.props and not same_family and pred(s.name + "/") for q, pred, same_family in IMPORTS.get(prop, []))
+        return any(q in s.props and not same_family and spred(s.name) for q, _pred, same_family, spred in IMPORTS.get(prop, []))
     specs = [s for s in all_specs(prog, tier) if spec_selected(s) and (tier == "thorough" or s.quick)]
     if only:
         specs = [s for s in specs if only in s.name]
@@ -63,7 +63,7 @@ def run_property(prop, tier, seed, jobs=None, only=None, verbose=False):
         functions.update(r["functions"])
         for o in r["obls"]:
             if prop in o["props"] or any(q in o["props"] and pred(o["name"]) and (not same_family or prop in r["props"])
-                                         for q, pred, same_family in IMPORTS.get(prop, [])):
+                                         for q, pred, same_family, _sp in IMPORTS.get(prop, [])):
                 o["family"] = r["family"]
                 obls.append(o)
                 solver_s += (o["ms"] or 0) / 1000.0
@@ -180,12 +180,13 @@ _memo = lambda name: _re.search(r"/memo:", name) is not None
 IMPORTS = {
     # property -> [(property the obligation is tagged with, name predicate, only from
     #               families that themselves serve this property)]
-    "C10": [("C09", lambda name: _re.search(r"memo|_reset_evaluation_cache|history\[", name) is not None, False)],
+    "C10": [("C09", lambda name: _re.search(r"memo|_reset_evaluation_cache|history\[", name) is not None, False, lambda fam: True)],
     # the memo pre-condition of the evaluation-family methods is what makes the value / raise
     # post-conditions of the public entries true on every history: import it where it is used
     # ... and the contract of _reset_evaluation_cache (used at every public entry) is proved by
     # its own per-class families
-    **{p: [("C09", _memo, True), ("C09", lambda name: "._reset_evaluation_cache/" in name, False)]
+    **{p: [("C09", _memo, True, lambda fam: False),
+           ("C09", lambda name: "._reset_evaluation_cache/" in name, False, lambda fam: fam.endswith("._reset_evaluation_cache"))]
        for p in ("C01", "C02", "C03", "C04", "C05", "C06", "C07")},
 }
 MAX_REPLAYS = 12
